@@ -162,7 +162,19 @@ func same(f func([]string) []string) func([]string) ([]string, []string) {
 }
 
 // runCases executes all cases on implementation and model and records the first mismatch of each case (minimised).
+// shardK/shardN: -shard k/n, see main
+var shardK, shardN = 0, 1
+
 func runCases(s Suite, cases []Case, r *Result) {
+	if shardN > 1 {
+		var mine []Case
+		for i, c := range cases {
+			if i%shardN == shardK {
+				mine = append(mine, c)
+			}
+		}
+		cases = mine
+	}
 	seen := map[string]bool{}
 	var all []string
 	implRes := make([][]string, len(cases))
